@@ -495,6 +495,8 @@ def _pi_measure(ctx, cls, col):
                 text=f"measure [{ct_}]")
         # operands: (this iteration's kernel result, the iterate it was computed from)
     loopfor = [s for s in fn.body if isinstance(s, ast.For)]
+    if not loopfor:
+        raise AnalysisError(f"anchor vanished: {cls.name}._evaluate_policy has no top-level evaluation loop (moved elsewhere?); R8.5 cannot be decided")
     okops = False
     why = "no evaluation loop"
     if loopfor:
